@@ -559,6 +559,11 @@ class Tdf:
 
         comment = comment if comment is not None else old_entry.comment
 
+        # make sure the new block can be added before the old one is removed
+        self._raise_if_unused_slots_not_at_end()
+        newBlock._write(BytesIO())
+        BTSString.write(256, comment)
+
         self.remove_block(newBlock.type)
         self.add_block(newBlock, comment)
 
